@@ -17,7 +17,9 @@ Rules (applied bottom-up, to a fixpoint; the result is a deep copy, the parsed m
            a conditional expression / a two-sided `if` whose test is negative (`is not`, `!=`, `not in`, `not t`) is turned
            into its positive form with the branches swapped;  `a <= x <= b` with side-effect-free middle -> `a <= x and x <= b`
   guard    `if c: <ends in return/raise/continue/break>  else: rest`  ->  `if c: ...` followed by `rest` (guard-clause form;
-           also when only the else branch terminates: the test is negated and the branches swapped)
+           also when only the else branch terminates: the test is negated and the branches swapped);
+           `if c: pass  else: X` -> `if not c: X`;  in a function that returns no value, `if c: return` + rest-of-function
+           -> `if not c: rest`
   alias    a local with ONE binding (not in a loop) whose value is a path (`a.b["k"]`) is replaced by that path in all its
            uses unless a later statement stores to that path or to a prefix of it (stores are looked at through all other
            path aliases); a local with one binding and ONE use whose value is any expression is replaced unless a later
@@ -338,6 +340,7 @@ class Normalizer:
             fn = _Consts(self, rel, bound_names(fn)).visit(fn)
             self._bound = bound_names(fn)
             rewrite_blocks(fn, self._block_pass(rel, cls, depth))
+            procedure_tail(fn)
             fn = _Exprs(self, rel, cls, depth, bound_names(fn)).visit(fn)
             subst_aliases(fn)
             ast.fix_missing_locations(fn)
@@ -433,15 +436,15 @@ class Normalizer:
         if c is None:
             return None
         node, hrel, hcls, pre = c
-        binding = self.bind(node, call, pre)
-        if binding is None:
-            return None
         saved = self._bound
         try:
             h = self.func(hrel, node.name, hcls, depth + 1)
         finally:
             self._bound = saved
         if h is None:
+            return None
+        binding = self.bind(h, call, pre)       # h: the defaults are in normal form too (module constants resolved)
+        if binding is None:
             return None
         body = [s for s in h.body]
         if body and isinstance(body[0], ast.Expr) and isinstance(body[0].value, ast.Constant):
@@ -819,6 +822,8 @@ def cond_assign(blk):
 def guard_form(blk):
     out = []
     for s in blk:
+        if isinstance(s, ast.If) and s.orelse and all(isinstance(x, ast.Pass) for x in s.body):
+            s = ast.copy_location(ast.If(test=negate(s.test), body=s.orelse, orelse=[]), s)     # if c: pass  else: X
         if isinstance(s, ast.If) and s.orelse:
             if terminates(s.body):
                 out.append(ast.copy_location(ast.If(test=s.test, body=s.body, orelse=[]), s))
@@ -830,6 +835,25 @@ def guard_form(blk):
                 continue
         out.append(s)
     return out
+
+
+def procedure_tail(fn):
+    """in a function that never returns a value:  `if c: return` + rest (up to the end of the function)  ->  `if not c: rest`;
+    a bare `return` at the very end is dropped."""
+    inner = [n for s in fn.body for n in ast.walk(s)]
+    if any(isinstance(n, ast.Return) and not (n.value is None or (isinstance(n.value, ast.Constant) and n.value.value is None))
+           for n in inner) or any(isinstance(n, (ast.Yield, ast.YieldFrom)) for n in inner):
+        return
+
+    def tail(blk):
+        blk = list(blk)
+        while blk and isinstance(blk[-1], ast.Return) and len(blk) > 1:
+            blk.pop()
+        for i, s in enumerate(blk):
+            if isinstance(s, ast.If) and not s.orelse and len(s.body) == 1 and isinstance(s.body[0], ast.Return) and i < len(blk) - 1:
+                return blk[:i] + [ast.copy_location(ast.If(test=negate(s.test), body=tail(blk[i + 1:]), orelse=[]), s)]
+        return blk
+    fn.body = tail(fn.body)
 
 
 # ------------------------------------------------------------------------------------------------ aliases
